@@ -87,6 +87,8 @@ type FileHandleMap struct {
 	nextHandle  uint64             // Counter for allocating new handles
 	freeHandles *uint64MinHeap     // Min-heap of freed handles for reuse
 	maxHandles  int                // Maximum handles before eviction (0 = DefaultMaxHandles)
+	allocSeq    map[uint64]uint64  // handle -> sequence number of its (re)issue; eviction age
+	seq         uint64             // last sequence number handed out
 }
 
 // NFSNode represents a file or directory in the NFS tree
